@@ -98,14 +98,14 @@ def fs17Case (id : String) (payload : List Sexp) : List String :=
         ("created", dash (sortStrs tg)),
         ("removed", dash (sortStrs rms)),
         ("exit", if tmpfail then "1" else "0"),
-        ("confined", fsyn confined), ("cleanonly", fsyn cleanonly), ("atomic", fsyn atomic), ("frame", fsyn frame),
+        ("confined", fsyn confined), ("outside-untouched", fsyn (tg.all (startsWithL c.pkgPrefix) && rms.all (startsWithL c.pkgPrefix))), ("cleanonly", fsyn cleanonly), ("atomic", fsyn atomic), ("frame", fsyn frame),
         ("hardlink", fsyn hardlink), ("notemp", fsyn notemp), ("reader", "yes"),
         -- something is removed only by a run that regenerates the whole package (C17_clean_only_superseded)
         ("superseded", fsyn (rms.isEmpty || whole)),
         -- I/O errors: a failed write or rename ends in remove(temp) (C17_no_temp_after_any_exit), a failed unlink stops Clean
         ("fault-atomic", "yes"), ("fault-notemp", fsyn faultNoTemp) ]
     let spec : List (String × String) :=
-      [ ("confined", "yes"), ("cleanonly", "yes"), ("atomic", "yes"), ("frame", "yes"), ("hardlink", "yes"),
+      [ ("confined", "yes"), ("outside-untouched", "yes"), ("cleanonly", "yes"), ("atomic", "yes"), ("frame", "yes"), ("hardlink", "yes"),
         ("notemp", "yes"), ("reader", "yes"), ("superseded", "yes"), ("fault-atomic", "yes"), ("fault-notemp", "yes") ]
     both id model spec (region c).str
   | _, _, _, _ => err id "bad-fs17-case"
